@@ -702,6 +702,41 @@ impl<'a> Exec<'a> {
                     _ => res(e.add_assertion_envelope(bc_envelope::Assertion::new_attachment(payload, vendor, conf))),
                 }
             }
+            "attach_container" => {
+                use bc_envelope::{Attachable, Attachments};
+                struct Holder {
+                    attachments: Attachments,
+                }
+                bc_envelope::impl_attachable!(Holder);
+                let e = reg(regs, a(0))?;
+                let mut items: Vec<(Envelope, String, Option<String>)> = vec![];
+                for x in a(1).as_array().ok_or("list")? {
+                    items.push((reg(regs, &x[0])?.clone(), x[1].as_str().unwrap_or("").to_string(), x[2].as_str().filter(|c| *c != "~none~").map(|c| c.to_string())));
+                }
+                if var % 2 == 1 {
+                    items.reverse();
+                }
+                if var % 4 < 2 {
+                    let mut c = Attachments::new();
+                    for (p, v, cf) in &items {
+                        c.add(p.clone(), v, cf.as_deref());
+                    }
+                    if c.is_empty() {
+                        return Err("container empty after add".into());
+                    }
+                    Outcome::Env(c.add_to_envelope(e.clone()))
+                } else {
+                    // through the Attachable trait
+                    let mut h = Holder { attachments: Attachments::new() };
+                    for (p, v, cf) in &items {
+                        h.add_attachment(p.clone(), v, cf.as_deref());
+                    }
+                    if !h.has_attachments() {
+                        return Err("holder has no attachments after add".into());
+                    }
+                    Outcome::Env(h.attachments().add_to_envelope(e.clone()))
+                }
+            }
             "add_bad_attachment" => {
                 let e = reg(regs, a(0))?;
                 let payload = reg(regs, a(1))?.clone();
